@@ -97,11 +97,11 @@ def gen_case(rng, tier, index):
         case["enumerate_kill"] = rng.choice(cand)["name"]
         # every sim point of that actor is hit in turn by a SIGKILL or by an errno
         case["enumerate_fault"] = rng.choice(["kill", "kill", "errno28", "errno5", "errno13"])
-        if tier != "thorough":
-            # keep a quick case below ~40 sub-runs: at most two rounds, sampled points beyond that
-            case["rounds"] = min(case["rounds"], 2)
-            case["enum_max"] = 40
-            case["enum_offset"] = rng.randrange(1000)
+        # keep a quick case below ~40 sub-runs (at most two rounds, sampled points beyond that),
+        # a thorough one below ~150
+        case["rounds"] = min(case["rounds"], 2 if tier != "thorough" else 3)
+        case["enum_max"] = 40 if tier != "thorough" else 150
+        case["enum_offset"] = rng.randrange(1000)
     case["faults"] = faults
     return case
 
